@@ -32,6 +32,14 @@ pub fn tracker_child(args: &Args) {
     c.protocol.peer_announce_interval = INTERVAL;
     c.cleaning.torrent_cleaning_interval = 100_000;
     c.cleaning.connection_cleaning_interval = 100_000;
+    if let Some(path) = args.extra.get("acl-path") {
+        c.access_list.path = path.into();
+        c.access_list.mode = if g("acl-mode") == 1 {
+            aquatic_common::access_list::AccessListMode::Allow
+        } else {
+            aquatic_common::access_list::AccessListMode::Deny
+        };
+    }
     if let Err(e) = aquatic_http::run(c) {
         eprintln!("tracker child: {:#}", e);
         std::process::exit(3);
@@ -50,12 +58,16 @@ fn free_port() -> u16 {
     std::net::TcpListener::bind("127.0.0.1:0").unwrap().local_addr().unwrap().port()
 }
 
-fn start_child(sw: usize, ww: usize, ka: bool, max_scrape: usize, max_peers: usize) -> (Child, u16) {
+fn start_child(sw: usize, ww: usize, ka: bool, max_scrape: usize, max_peers: usize, acl: Option<(u8, String)>) -> (Child, u16) {
     for _ in 0..4 {
         let port = free_port();
-        let child = std::process::Command::new(std::env::current_exe().unwrap())
+        let mut cmd = std::process::Command::new(std::env::current_exe().unwrap());
+        cmd.arg("http-tracker");
+        if let Some((mode, path)) = &acl {
+            cmd.args(["--acl-mode", &mode.to_string(), "--acl-path", path]);
+        }
+        let child = cmd
             .args([
-                "http-tracker",
                 "--port",
                 &port.to_string(),
                 "--socket-workers",
@@ -230,17 +242,6 @@ pub fn run(args: &Args) {
         let ka = rng.chance(3, 4);
         let max_scrape = *rng.pick(&[1usize, 2, 3, 100]);
         let max_peers = *rng.pick(&[1usize, 2, 3, 50]);
-        *header = format!("{}, {}, {}, {}, {}, {}", cq::nat(sw), cq::nat(ww), cq::b(ka), cq::nat(max_scrape), cq::nat(max_peers), cq::n(INTERVAL));
-        let (_child, port) = start_child(sw, ww, ka, max_scrape, max_peers);
-        let mut conns: Vec<Conn> = vec![
-            Conn { stream: None, v6: false },
-            Conn { stream: None, v6: false },
-            Conn { stream: None, v6: false },
-            Conn { stream: None, v6: true },
-        ];
-        for c in conns.iter_mut() {
-            c.stream = Some(connect(c.v6, port));
-        }
         // torrents: first bytes 0..5 so that they spread over up to 3 swarm workers
         let pool: Vec<[u8; 20]> = (0..6u8)
             .map(|i| {
@@ -252,6 +253,39 @@ pub fn run(args: &Args) {
                 h
             })
             .collect();
+        // access list: off, or allow / deny naming torrents 0 and 3
+        let acl_mode = *rng.pick(&[0u8, 0, 1, 2]);
+        let acl_path = format!("/verif/.cache/scratch/http-sys-acl-{}.txt", std::process::id());
+        let acl = if acl_mode == 0 {
+            None
+        } else {
+            let text: String = [pool[0], pool[3]].iter().map(|h| format!("{}\n", h.iter().map(|b| format!("{:02x}", b)).collect::<String>())).collect();
+            std::fs::create_dir_all("/verif/.cache/scratch").unwrap();
+            std::fs::write(&acl_path, text).unwrap();
+            Some((acl_mode, acl_path.clone()))
+        };
+        *header = format!(
+            "{}, {}, {}, {}, {}, {}, {}, {}",
+            cq::nat(sw),
+            cq::nat(ww),
+            cq::b(ka),
+            cq::nat(max_scrape),
+            cq::nat(max_peers),
+            cq::n(INTERVAL),
+            match acl_mode { 0 => "AclOff", 1 => "AclAllow", _ => "AclDeny" },
+            if acl_mode == 0 { "[]".to_string() } else { cq::list(&[cq::id20(&pool[0]), cq::id20(&pool[3])]) }
+        );
+        let (_child, port) = start_child(sw, ww, ka, max_scrape, max_peers, acl);
+        let _ = std::fs::remove_file(&acl_path);
+        let mut conns: Vec<Conn> = vec![
+            Conn { stream: None, v6: false },
+            Conn { stream: None, v6: false },
+            Conn { stream: None, v6: false },
+            Conn { stream: None, v6: true },
+        ];
+        for c in conns.iter_mut() {
+            c.stream = Some(connect(c.v6, port));
+        }
         let announce_text = |rng: &mut Prng, hash: &[u8; 20], aport: u16| -> (Vec<u8>, u8, u64, Option<usize>) {
             let ev = rng.below(4) as u8;
             let left = *rng.pick(&[0u64, 0, 1, 5000]);
